@@ -41,10 +41,13 @@ type vc02Backend struct {
 func (b vc02Backend) tok() string { return b.id + ":" + vx(b.secret) }
 
 type vc02Cfg struct {
-	mode     string // backends | compat | allowall
+	mode     string // backends | etcd | compat | allowall
 	backends []vc02Backend
 	compat   *vc02Backend
 }
+
+// byUrl: the configuration consists of backends with urls (from the configuration file, or from etcd).
+func (c *vc02Cfg) byUrl() bool { return c.mode == "backends" || c.mode == "etcd" }
 
 func (c *vc02Cfg) op() string {
 	ct, bt := "-", "-"
@@ -184,6 +187,8 @@ type vc02World struct {
 	br     *bufio.Reader
 	fakes  [2]*vc02Fake
 	hosts  map[string]string // H1 -> 127.0.0.1:port
+	// mode etcd: the storage the server was started with (put back before closing)
+	startStorage BackendStorage
 }
 
 func (w *vc02World) subst(s string) string {
@@ -210,6 +215,8 @@ func newVC02World(c *vc02Cfg) *vc02World {
 			config.AddOption(b.id, "secret", string(b.secret))
 		}
 		config.AddOption("backend", "backends", strings.Join(ids, ", "))
+	case "etcd":
+		// no backend in the configuration file: the backends arrive as etcd keys, see below
 	case "compat":
 		config.AddOption("backend", "allowed", w.hosts["H1"]+", "+w.hosts["H2"])
 		config.AddOption("backend", "secret", string(c.compat.secret))
@@ -242,6 +249,25 @@ func newVC02World(c *vc02Cfg) *vc02World {
 	if err := w.bs.Start(r); err != nil {
 		panic(err)
 	}
+	if c.mode == "etcd" {
+		// The real etcd backend storage, fed the way the etcd client feeds it (no etcd server needed): a
+		// starting server receives the current keys in key order, one EtcdKeyUpdated per key.
+		st := &backendStorageEtcd{
+			backendStorageCommon: backendStorageCommon{backends: make(map[string][]*Backend)},
+			keyInfos:             make(map[string]*BackendInformationEtcd),
+		}
+		keys := append([]vc02Backend{}, c.backends...)
+		sort.SliceStable(keys, func(i, j int) bool { return keys[i].id < keys[j].id })
+		for _, b := range keys {
+			val, err := json.Marshal(map[string]string{"url": w.subst(b.url), "secret": string(b.secret)})
+			if err != nil {
+				panic(err)
+			}
+			st.EtcdKeyUpdated(nil, b.id, val, nil)
+		}
+		w.startStorage = w.hub.backend.backends.storage
+		w.hub.backend.backends.storage = st
+	}
 	w.events = &vc02Events{AsyncEvents: events}
 	w.bs.events = w.events
 	w.hub.throttler.Close()
@@ -258,6 +284,9 @@ func (w *vc02World) close() {
 	w.srv.Close()
 	for _, f := range w.fakes {
 		f.srv.Close()
+	}
+	if w.startStorage != nil {
+		w.hub.backend.backends.storage = w.startStorage
 	}
 	w.hub.backend.Close()
 	w.events.AsyncEvents.Close()
@@ -356,7 +385,8 @@ func vc02GenCfg(r *vRand) *vc02Cfg {
 	n := 1 + r.intn(3)
 	// url prefixes are never nested (which prefix wins is C13's subject) — but they may be siblings of which
 	// one is a string prefix of the other without being its parent (/one/ and /one2/), in either order,
-	// and may be configured without the final slash
+	// and may be configured without the final slash; the backends come from the configuration file (which
+	// stores urls '/'-terminated) or from etcd (which stores them as given)
 	layouts := [][]string{
 		{"http://H1/", "http://H2/", "http://H2/"},                  // distinct hosts, roots (n <= 2)
 		{"http://H1/one/", "http://H1/two/", "http://H1/three/"},    // one shared host
@@ -369,6 +399,8 @@ func vc02GenCfg(r *vRand) *vc02Cfg {
 		{"http://H2/sub/dir/", "http://H2/sub/dir2", "http://H2/sub/d/"},
 		{"http://H1/a/", "http://H1/ab/", "http://H2/a/"},
 		{"https://H1/nc", "https://H1/nc.old/", "http://H1/nc_1/"},
+		{"http://H1/foo", "http://H1/foobar", "http://H2/foo/"},
+		{"https://H2/foo", "http://H2/foo", "http://H2/fo"},
 	}
 	var layout []string
 	if r.chance(1, 2) {
@@ -395,7 +427,20 @@ func vc02GenCfg(r *vRand) *vc02Cfg {
 			sec = vc02PlainSecret(sec)
 		}
 		secrets = append(secrets, sec)
-		c.backends = append(c.backends, vc02Backend{id: fmt.Sprintf("b%d", i+1), url: layout[i], secret: sec})
+		u := layout[i]
+		if r.chance(1, 3) {
+			// the same backend url, written the other way: with / without the final slash
+			if strings.HasSuffix(u, "/") {
+				u = strings.TrimSuffix(u, "/")
+			} else {
+				u += "/"
+			}
+		}
+		c.backends = append(c.backends, vc02Backend{id: fmt.Sprintf("b%d", i+1), url: u, secret: sec})
+	}
+	if r.chance(2, 5) {
+		// the same backends, announced through etcd (keys b1, b2, …) instead of the configuration file
+		c.mode = "etcd"
 	}
 	return c
 }
@@ -488,7 +533,8 @@ func vc02Bytes(r *vRand, n int) []byte {
 func vc02Components(u string) []string { return strings.Split(strings.TrimSuffix(u, "/"), "/") }
 
 // vc02Owner is the generator's own reading of "the backend a URL belongs to" (mode backends): the
-// backend whose URL components are the leading components of u.  Returns a header token.
+// backend whose URL components are the leading components of u (the first such backend in the order the
+// server holds them: configuration order, key order for etcd — the generator's ids are in that order).  Returns a header token.
 func vc02Owner(c *vc02Cfg, u string) string {
 	if u == "" {
 		return "-"
@@ -680,13 +726,13 @@ func vC02Gen(e *vEnv, r *vRand) []vCase {
 				}
 				q = base
 				q.hdrTok, q.hdrVal, q.tag = "?", hv, "unknown-backend"
-				if c.mode == "backends" && strings.HasPrefix(hv, "http") {
+				if c.byUrl() && strings.HasPrefix(hv, "http") {
 					q.hdrTok = vc02Owner(c, hv)
 				}
 				add(q)
 			}
 			// other spellings of the signer's backend url, and urls next to it that belong to another backend or to none
-			if c.mode == "backends" {
+			if c.byUrl() {
 				same, near := vc02UrlVariants(signer.url)
 				for _, hv := range append(same, near...) {
 					q = base
@@ -742,7 +788,7 @@ func vC02Gen(e *vEnv, r *vRand) []vCase {
 		if c.mode != "allowall" {
 			kinds := []string{"auth", "room-join", "room-leave", "ping", "session-add", "session-remove"}
 			outOp := func(kind, id, base string) string {
-				if c.mode != "backends" {
+				if !c.byUrl() {
 					return fmt.Sprintf("out %s %s", kind, id)
 				}
 				return fmt.Sprintf("out %s %s u=%s", kind, id, vEnc(strings.TrimSuffix(base, "/")+vc02BackendPath))
@@ -756,7 +802,7 @@ func vC02Gen(e *vEnv, r *vRand) []vCase {
 						ops = append(ops, outOp(k, b.id, b.url))
 					}
 				}
-				if c.mode == "backends" {
+				if c.byUrl() {
 					_, near := vc02UrlVariants(b.url)
 					for _, nu := range near {
 						if strings.HasPrefix(nu, "https:") || !(e.thorough() || rr.chance(1, 2)) {
